@@ -93,6 +93,16 @@ THEOREMS = {
         ("HH.C08.constructors_inv", "new/default/from_checkpoint(arbitrary) establish the invariant"),
         ("HH.C08.legacy_debug_panic", "kernel-checked witness of the fixed defect: idx=32 panics in debug (shift overflow)"),
     ]),
+    "C09": dict(module="HH.Props.C09", trusted=MODEL_TRUST + SIMD_TRUST + ["HH/Footprint.lean: the raw-pointer accesses of the back ends re-expressed over regions with unreadable bytes (validated by guard pages + Miri)", "mmap/mprotect guard pages, Miri's UB detection", "struct layout: measured in every build and checked against the alignment premises"], theorems=[
+        ("HH.C09.sse_packet_loads", "SSE/NEON data_to_lanes: both 16-byte loads stay inside the 32-byte packet, ∀ memory behind it"),
+        ("HH.C09.avx_packet_loads", "AVX2 data_to_lanes: the 32-byte unaligned load stays inside the packet"),
+        ("HH.C09.sse_remainder_in_bounds", "SSE remainder: ∀ pending count 0..31, ∀ memory behind buffer.as_slice(): no access outside the slice, value = value model"),
+        ("HH.C09.avx_remainder_in_bounds", "AVX2 remainder: aligned load + masked loads touch only the slice, given a 16-byte aligned buffer"),
+        ("HH.C09.avx_remainder_misaligned_faults", "the alignment premise is necessary (misaligned buffer => the aligned load faults)"),
+        ("HH.C09.neon_remainder_in_bounds", "NEON remainder: unchecked take::<8>/take::<4>/vld1q_u8 stay inside the slice"),
+        ("HH.C09.avx_key_load", "AvxHash::force_new's aligned 32-byte key load: fine iff the key is 32-byte aligned"),
+        ("HH.C09.fault_witness", "the model exhibits faults (16-byte load over a 15-byte slice abutting an unmapped byte)"),
+    ]),
     "C10": dict(module="HH.Props.C10", trusted=MODEL_TRUST + ["HH/Dispatch.lean: transcription of the two cfg!/is_x86_feature_detected ladders of src/builder.rs; tied by the tags observed in every build configuration x CPU mask"], theorems=[
         ("HH.C10.select_permitted", "∀ Cfg Cpu (128 rows), Permitted cfg cpu (selectNew cfg cpu)"),
         ("HH.C10.restore_eq_new", "∀ Cfg Cpu, the from_checkpoint ladder selects what the new ladder selects"),
@@ -152,7 +162,7 @@ LEVEL.update({"C16": "translation_validation", "C17": "translation_validation", 
 EXPLAIN = {"C18": "A functional model has no heap, so the deciding evidence is (a) the kernel-checked theorems over the regenerated source facts (no allocation-capable name outside #[cfg(test)], no alloc crate, std used only for io::Write), (b) the allocation observable of the correspondence: a counting #[global_allocator] around every real operation (construction, appends 0 B..MiB, write, finish, clone, checkpoint, restore, Debug into a stack sink, finalize; std and no_std; all native back ends) must report 0, and (c) the no_std rlib references no allocator symbol."}
 ASSUME = {
     k: ["the Lean model corresponds to the code: established for this run by the differential correspondence stream (see coverage.traces_validated_against_impl / model_disagreements)",
-        "rustc/LLVM compile the crate according to Rust semantics"] for k in ["C01", "C02", "C03", "C04", "C05", "C06", "C07", "C08", "C10", "C11", "C12", "C13", "C14", "C15"]
+        "rustc/LLVM compile the crate according to Rust semantics"] for k in ["C01", "C02", "C03", "C04", "C05", "C09", "C06", "C07", "C08", "C10", "C11", "C12", "C13", "C14", "C15"]
 }
 SPECIAL = {}
 PRE = {}
